@@ -6,6 +6,7 @@ import ast
 from .. import census
 from ..ir import walk
 from ..loader import AnalysisError
+from ..facets.pred import Pred
 from .common import CONFIG_MOD, call_args, ext_name, is_ext_call
 
 EXPLANATION = (
@@ -46,6 +47,35 @@ def header_key(v):
     if v.op == "MCall" and v.attr[0] == "get" and len(v.args) >= 2 and v.args[1].op == "Const" and \
             isinstance(v.args[1].attr, str) and v.args[0].op == "Attr" and v.args[0].attr == "header":
         return v.args[1].attr
+    return None
+
+
+def is_mapping_type(n):
+    names = {x.attr for x in (n.args if n.op == "Tuple" else [n]) if x.op == "Ext"}
+    return bool(names) and names <= {"collections.abc.MutableMapping", "collections.abc.Mapping", "builtins.dict",
+                                     "typing.MutableMapping", "typing.Mapping"}
+
+
+def joined_key(n, pk, sep, it):
+    """n == (pk + sep + k if pk else k) in either branch order, k the item's key"""
+    if n.op != "Phi":
+        return None
+    c, a, b = n.args
+    while c.op == "UnaryOp" and c.attr == "Not":
+        c, a, b = c.args[0], b, a
+    if c is not pk:
+        return None
+    isk = lambda x: x.op == "Elem" and x.attr == 0 and x.args[0].op == "IterElem" and x.args[0].args[0] is it
+    if not isk(b):
+        return None
+    if a.op == "BinOp" and a.attr == "Add" and isk(a.args[1]) and a.args[0].op == "BinOp" and \
+            a.args[0].attr == "Add" and a.args[0].args[0] is pk and a.args[0].args[1] is sep:
+        return n
+    if a.op == "BinOp" and a.attr == "Add" and a.args[0] is pk and a.args[1].op == "BinOp" and \
+            a.args[1].attr == "Add" and a.args[1].args[0] is sep and isk(a.args[1].args[1]):
+        return n
+    if a.op == "FStr" and len(a.args) == 3 and a.args[0] is pk and a.args[1] is sep and isk(a.args[2]):
+        return n
     return None
 
 
@@ -99,41 +129,93 @@ def run(ck, ctx):
                     ok = True
         ck.ob("R16.1", "results_table.init puts the flattened configuration into the table's meta", ok, r.value,
               "results_table.init", detail)
-        # shape of the flattener
+        # behaviour of the flattener, from the effects of its generator body
         m = I.module("nuspacesim.utils.misc")
-        fl = m.functions.get("_flat")
         fd = m.functions.get("flatten_dict")
-        if fl is None or fd is None:
-            raise AnalysisError("flatten_dict / _flat not found in utils/misc.py")
-        src = ast.unparse(fl.node)
-        rec = [n for n in ast.walk(fl.node) if isinstance(n, ast.YieldFrom)]
-        ys = [n for n in ast.walk(fl.node) if isinstance(n, ast.Yield)]
-        joins = [n for n in ast.walk(fl.node) if isinstance(n, ast.BinOp) and isinstance(n.op, ast.Add)]
-        ok_join = any(ast.unparse(j).replace(" ", "") == "parent_key+sep+k" for j in joins)
-        ifs = [n for n in ast.walk(fl.node) if isinstance(n, ast.If)]
-        ok_rec = len(rec) == 1 and "flatten_dict(v,new_key,sep=sep)" in ast.unparse(rec[0]).replace(" ", "") and \
-            any(isinstance(n.test, ast.Call) and ast.unparse(n.test.func) == "isinstance" and
-                "MutableMapping" in ast.unparse(n.test) and ast.unparse(n.test.args[0]) == "v" for n in ifs)
-        ok_leaf = len(ys) == 1 and ast.unparse(ys[0].value).replace(" ", "") in ("(new_key,v)", "new_key,v")
-        loops = [n for n in ast.walk(fl.node) if isinstance(n, ast.For)]
-        ok_all = len(loops) == 1 and ast.unparse(loops[0].iter).replace(" ", "") == "d.items()" and \
-            not any(isinstance(n, (ast.Continue, ast.Break)) for n in ast.walk(fl.node))
-        # every item takes exactly one of two unconditional routes: recurse (mapping) or emit (anything else)
-        if ok_all:
-            body = loops[0].body
-            last = body[-1] if body else None
-            ok_all = isinstance(last, ast.If) and len(last.body) == 1 and len(last.orelse) == 1 and \
-                isinstance(last.body[0], ast.Expr) and isinstance(last.body[0].value, ast.YieldFrom) and \
-                isinstance(last.orelse[0], ast.Expr) and isinstance(last.orelse[0].value, ast.Yield) and \
-                all(isinstance(b, (ast.Assign, ast.AnnAssign)) for b in body[:-1]) and \
-                not any(isinstance(n, ast.If) for b in body[:-1] for n in ast.walk(b))
-        ck.ob("R16.1", "flattener: key = parent + sep + k", ok_join, (m.relpath, fl.node.lineno, 0), "_flat", "")
-        ck.ob("R16.1", "flattener: recurses into every mapping with the same separator", ok_rec,
-              (m.relpath, fl.node.lineno, 0), "_flat", "")
+        if fd is None:
+            raise AnalysisError("flatten_dict not found in utils/misc.py")
+        d, pk, sep = I.input("d"), I.input("parent_key"), I.input("sep")
+        rfd = I.run(I.func_node(fd), [d, pk, sep])
+        v = rfd.value
+        gen = v.args[1] if v is not None and is_ext_call(v, "builtins.dict") and len(v.args) == 2 else None
+        fl = (gen.extra or {}).get("generator") if gen is not None else None
+        ok_fd = fl is not None and [x for x in gen.args[1:]] == [d, pk, sep]
+        ck.ob("R16.1", "flatten_dict collects all items emitted by the flattening generator for (d, parent_key, sep)",
+              ok_fd, v if v is not None else d, "flatten_dict", g.show(v, 3) if v is not None else "no value")
+        if not ok_fd:
+            return
+        I.analyse_generators.add(fl.qualname)
+        try:
+            rg = I.run(I.func_node(fl), [d, pk, sep])
+        finally:
+            I.analyse_generators.discard(fl.qualname)
+        where = (m.relpath, fl.node.lineno, 0)
+        ys = [e for e in rg.effects if e.kind == "yield"]
+        yf = [e for e in rg.effects if e.kind == "yield-from"]
+        odd = [e for e in rg.effects if e.kind in ("unsupported", "call-unknown", "recursion-cut")]
+        for e in odd:
+            ck.ob("R16.1", f"flattener: construct outside the modelled set at {e.where()}", None, e.node, fl.qualname,
+                  f"{e.kind}: {e.data}")
+        loops = {id(c): c for e in ys + yf for c, pol in e.pc if c.op == "InLoop"}
+        ok_loop = len(loops) == 1 and all(any(c.op == "InLoop" for c, _p in e.pc) for e in ys + yf)
+        it = next(iter(loops.values())).args[0] if ok_loop else None
+        ok_loop = ok_loop and ((it.op == "MCall" and it.attr[0] == "items" and it.args[0] is d) or
+                               (it.op == "DictItems" and it.args[0] is d))
+        ck.ob("R16.1", "flattener: walks all items of the mapping it is given, everything is emitted from that walk",
+              ok_loop and len(ys) >= 1 and len(yf) >= 1, where, fl.qualname,
+              f"{len(ys)} yield / {len(yf)} yield-from site(s) over {g.show(it, 2) if it is not None else '?'}")
+        if not (ok_loop and ys and yf):
+            return
+        pr = Pred(I)
+
+        def inner(e):
+            """condition of the site relative to one loop iteration"""
+            k = max(i for i, (c, _p) in enumerate(e.pc) if c.op == "InLoop")
+            f = ("const", True)
+            for c, pol in e.pc[k + 1:]:
+                fc = pr.formula(c)
+                f = ("and", f, fc if pol else ("not", fc))
+            return f
+
+        def disj(es):
+            f = ("const", False)
+            for e in es:
+                f = ("or", f, inner(e))
+            return f
+        ismap = [c for e in yf for c in walk([cc for cc, _p in e.pc]) if c.op == "IsInstance"]
+        key_v = None
+        if ismap:
+            key_v = ismap[0].args[0]
+        ok_v = key_v is not None and key_v.op == "Elem" and key_v.attr == 1 and key_v.args[0].op == "IterElem" and \
+            key_v.args[0].args[0] is it and is_mapping_type(ismap[0].args[1])
+        ck.ob("R16.1", "flattener: the recursion test is 'the item's value is a mapping'", ok_v, ismap[0] if ismap
+              else d, fl.qualname, g.show(ismap[0], 3) if ismap else "no isinstance test")
+        if not ok_v:
+            return
+        A = pr.formula(ismap[0])
+        eq1 = pr.equivalent(disj(yf), A)
+        eq2 = pr.equivalent(disj(ys), ("not", A))
+        ck.ob("R16.1", "flattener: recurses into every mapping", bool(eq1 and eq1[0]), yf[0].node, fl.qualname,
+              pr.show(disj(yf)))
         ck.ob("R16.1", "flattener: every non-mapping value is emitted under its joined key, no item is skipped",
-              ok_leaf and ok_all, (m.relpath, fl.node.lineno, 0), "_flat", "")
-        ok_fd = "dict(_flat(d,parent_key,sep))" in ast.unparse(fd.node).replace(" ", "")
-        ck.ob("R16.1", "flatten_dict collects all emitted items", ok_fd, (m.relpath, fd.node.lineno, 0), "flatten_dict", "")
+              bool(eq2 and eq2[0]), ys[0].node, fl.qualname, pr.show(disj(ys)))
+        key_k = None
+        for e in ys:
+            val = e.node
+            okp = val.op == "Tuple" and len(val.args) == 2 and val.args[1] is key_v
+            nk = joined_key(val.args[0], pk, sep, it) if okp else None
+            ck.ob("R16.1", "flattener: emits (parent + sep + k if parent else k, value)", nk is not None, val,
+                  fl.qualname, g.show(val, 4))
+            key_k = nk or key_k
+        for e in yf:
+            val = e.node
+            inner_call = val.args[0] if val.op == "MCall" and val.attr[0] == "items" and len(val.args) == 1 else None
+            gcall = inner_call.args[1] if inner_call is not None and is_ext_call(inner_call, "builtins.dict") and \
+                len(inner_call.args) == 2 else None
+            okr = gcall is not None and (gcall.extra or {}).get("generator") is fl and len(gcall.args) == 4 and \
+                gcall.args[1] is key_v and joined_key(gcall.args[2], pk, sep, it) is not None and gcall.args[3] is sep
+            ck.ob("R16.1", "flattener: recursion passes the value, the joined key as the new parent, and the same "
+                  "separator; all items of the nested result are emitted", okr, val, fl.qualname, g.show(val, 4))
     ck.guard(r161, "R16.1")
 
     # ---------------------------------------------------------------- reader side
@@ -243,6 +325,7 @@ def run(ck, ctx):
     def r164():
         sites = census.calls(ctx.prog, lambda q: q.endswith(".write") or q == "write")
         n = 0
+        per_mod = {}
         for m, node, q, enc in sites:
             if m.name not in ("nuspacesim.apps.run", "nuspacesim.compute"):
                 continue
@@ -250,11 +333,13 @@ def run(ck, ctx):
             if "format" not in kws:
                 continue
             n += 1
+            per_mod[m.name] = per_mod.get(m.name, 0) + 1
             fmt, ov = kws.get("format"), kws.get("overwrite")
             ok = isinstance(fmt, ast.Constant) and fmt.value == "fits" and isinstance(ov, ast.Constant) and ov.value is True
             ck.ob("R16.4", f"results table written with format='fits', overwrite=True in {enc}", ok,
                   (m.relpath, node.lineno, 0), enc, ast.unparse(node)[:120])
-        ck.floor("R16.4", n, 3, "writes of the results table (CLI + staged writer)")
+        ck.floor("R16.4", per_mod.get("nuspacesim.apps.run", 0), 1, "final write of the results table in the CLI")
+        ck.floor("R16.4", per_mod.get("nuspacesim.compute", 0), 1, "staged write of the results table in compute()")
     ck.guard(r164, "R16.4")
 
 
